@@ -437,9 +437,20 @@ func Main(tier, replay string) {
 	}
 	metas := map[string]reqMeta{}
 	reqsFor := makeReqsFor(inf, metas)
-	crs := rt.RunCases(scratch, cases, 40, 6, instrument, reqsFor, nil, rt.Flags{}, deadline)
 	bound, rejected, invoked, notAccepted := 0, 0, 0, 0
-	for _, cr := range crs {
+	// the binding contract does not depend on the generator switches: the whole space is replayed against routers
+	// generated with validateResponsePayload, validateTopLevelOnlyEnum and generateEnumValidator on as well
+	flagSets := []rt.Flags{{}, {EnumVal: true, TopEnum: true, RespVal: true}}
+	var crs []rt.CaseRun
+	flagOf := map[int]rt.Flags{}
+	for _, fl := range flagSets {
+		part := rt.RunCases(scratch, cases, 40, 6, instrument, reqsFor, nil, fl, deadline)
+		for range part {
+			flagOf[len(flagOf)] = fl
+		}
+		crs = append(crs, part...)
+	}
+	for cri, cr := range crs {
 		c := cr.Case
 		ci := inf[c.ID]
 		if cr.Run == nil {
@@ -467,7 +478,13 @@ func Main(tier, replay string) {
 				if m.Absent {
 					class = "absent"
 				}
+				if flagOf[cri].TopEnum && class == "exact" && strings.HasPrefix(ci.K.Name, "enum-") && !map[string]bool{"a": true, "b": true, "1": true, "2": true}[m.Val.Raw] {
+					class = "odd" // validateTopLevelOnlyEnum refuses values outside the declared constants
+				}
 				feat := map[string]string{"engine": e, "value-class": class}
+				if fl := flagOf[cri]; fl != (rt.Flags{}) {
+					feat["flags"] = fmt.Sprintf("%+v", fl)
+				}
 				for k, v := range c.Features {
 					feat[k] = v
 				}
@@ -547,7 +564,7 @@ func Main(tier, replay string) {
 	run.Outcome("canonical", int64(bound))
 	run.Outcome("expected-422", int64(rejected))
 	run.Sample(map[string]any{"scenario": cases[len(cases)/2].Desc, "values": kinds()[1].Vals()[:6]})
-	run.Bound = fmt.Sprintf("%d binding scenarios: 17 parameter kinds x {path, query, header, form} x pointer x wire alias x validator (numeric: gte=80), JSON bodies (struct, []struct, pointer); per parameter the kind's value alphabet (boundary values that must bind exactly, values that must be refused, odd syntaxes) plus the absent request; x 5 engines", len(cases))
+	run.Bound = fmt.Sprintf("%d binding scenarios: 17 parameter kinds x {path, query, header, form} x pointer x wire alias x validator (numeric: gte=80), JSON bodies (struct, []struct, pointer); per parameter the kind's value alphabet (boundary values that must bind exactly, values that must be refused, odd syntaxes) plus the absent request; x 5 engines x {all generator switches off, validateResponsePayload + validateTopLevelOnlyEnum + generateEnumValidator on}", len(cases))
 	run.Rule = "state = (scenario, request value, engine); transition = one HTTP request served in-process by a compiled generated router with an echoing controller; validated = executions whose recorded arguments and status were compared with the binding reference model"
 	run.Assumptions = []string{"odd syntaxes ('+5', ' 5', '0x10', full-width digits, NaN, empty strings, values containing '/') are only required not to bind a silently wrong value", "value alphabets are boundary/representative, not all representable values"}
 	os.RemoveAll(scratch)
